@@ -63,33 +63,42 @@ def swatches(rs, flat):
     return base if flat else base.reshape(4, 6, 3)
 
 
-def fit_event(darsia, rng, tid, cls_name):
+def fit_event(darsia, rng, tid, cls_name, sdtype="float64"):
     """Exact recovery and monotonicity, for a fit from the neutral balance and for a second fit of the SAME object to another
     exact map (the fit then starts from the first, non-commuting balance)."""
     rs = np.random.RandomState(rng.randrange(10 ** 6))
     flat = rng.random() < 0.5
     src = swatches(rs, flat)
+    # swatches as sampled from a raw image (8 / 16 bit integers) or float32: the balance maps exactly these values
+    if sdtype.startswith("uint"):
+        src = np.round(src * (200 if sdtype == "uint8" else 40000)).astype(sdtype)
+    else:
+        src = src.astype(sdtype)
+    srcf = src.astype(np.float64)
+    mag = float(srcf.max())
 
     def exact_map(scale):
         if cls_name == "WhiteBalance":
             return np.diag(1 + 2 * scale * (rs.rand(3) - 0.5)), np.zeros(3)
         if cls_name == "ColorBalance":
             return np.eye(3) + scale * (rs.rand(3, 3) - 0.5), np.zeros(3)
-        return np.eye(3) + scale * (rs.rand(3, 3) - 0.5), 0.5 * scale * (rs.rand(3) - 0.5)
+        return np.eye(3) + scale * (rs.rand(3, 3) - 0.5), 0.5 * scale * (rs.rand(3) - 0.5) * mag
 
     bal = getattr(darsia, cls_name)()
     out = []
     for start, scale in (("neutral", 0.1), ("fitted", 0.3)):
         A, b = exact_map(scale)
-        dst = src @ A + b
-        before = float(np.sum((bal.apply_balance(src) - dst) ** 2))
+        dst = srcf @ A + b
+        before = float(np.sum((np.asarray(bal.apply_balance(src), dtype=float) - dst) ** 2))
         with warnings.catch_warnings():
             warnings.simplefilter("ignore")
             bal.find_balance(src, dst)
-        after_arr = bal.apply_balance(src)
+        after_arr = np.asarray(bal.apply_balance(src), dtype=float)
         after = float(np.sum((after_arr - dst) ** 2))
-        out.append({"tid": f"{tid}:{start}", "op": "fit", "cls": cls_name, "start": start, "flat": int(flat), "resexp": exponent(float(np.abs(after_arr - dst).max())),
-                    "monotone": int(after <= before * (1 + 1e-9) + 1e-15), "before6": int(round(1e6 * before)), "after6": int(round(1e6 * after))})
+        # residuals relative to the magnitude of the swatch values (1 for float swatches in [0, 1])
+        out.append({"tid": f"{tid}:{start}", "op": "fit", "cls": cls_name, "start": start, "flat": int(flat), "sdtype": sdtype,
+                    "resexp": exponent(float(np.abs(after_arr - dst).max()) / mag),
+                    "monotone": int(after <= before * (1 + 1e-9) + 1e-15 * mag ** 2), "before6": int(round(1e6 * before / mag ** 2)), "after6": int(round(1e6 * after / mag ** 2))})
     return out
 
 
@@ -140,8 +149,8 @@ def run(ck, replay=None):
     sel = stage_lists if not quick else [s for s in stage_lists if len(s) <= 2] + rng.sample([s for s in stage_lists if len(s) == 3], 40)
     for i, st in enumerate(sel):
         events.append(compose_event(darsia, rng, f"compose:{i}", st))
-    for i in range(6 if quick else 60):
-        events += fit_event(darsia, rng, f"fit:{i}", ["WhiteBalance", "ColorBalance", "AffineBalance"][i % 3])
+    for i in range(15 if quick else 90):
+        events += fit_event(darsia, rng, f"fit:{i}", ["WhiteBalance", "ColorBalance", "AffineBalance"][i % 3], ["float64", "uint8", "float32", "uint16", "float64"][(i // 3) % 5])
     import itertools
     modes = ["diagonal", "linear", "affine"]
     staged = list(itertools.product(modes, repeat=2)) + (list(itertools.product(modes, repeat=3)) if not quick else rng.sample(list(itertools.product(modes, repeat=3)), 4))
@@ -153,7 +162,7 @@ def run(ck, replay=None):
         if e["op"] == "compose":
             sig = f"C12:{b['clause']}:compose:" + "+".join(s["mode"] for s in e["stages"])
         elif e["op"] == "fit":
-            sig = f"C12:{b['clause']}:fit:{e['cls']}:{e['start']}"
+            sig = f"C12:{b['clause']}:fit:{e['cls']}:{e['start']}:" + ("int" if e["sdtype"].startswith("uint") else "float")
         else:
             sig = f"C12:{b['clause']}:staged_fit:" + "+".join(e["modes"])
         ck.violation(sig, f"{e['op']} violates {b['clause']}", {k: v for k, v in e.items() if k not in ("x", "res")})
